@@ -50,7 +50,7 @@ REQUIRED_THEOREMS = [
     "values_operator_sound_ks", "rhsValueF_constOp", "sumSquares_nonneg", "sumSquares_eq_zero_iff",
     "sumSquares_homogeneous", "sampled_head", "sampled_second", "rhsValueF_env_congr", "rhsValueF_unused_field",
     "grouped_text_vs_split_class_gap_at", "diffusionRateAt_time_dependence", "eval_env_congr",
-    "values_operator_sound_inner", "values_operator_not_sound_outer",
+    "values_operator_sound_inner", "values_operator_not_sound_outer", "sampled_zip_getElem", "diffusionRateAt_sampled",
 ]
 EXTRA_PROP_FILES = ["C10b"]
 RULE = ("cases = (equation class or generic right-hand-side program, parameters incl. the expr_prod branch values "
